@@ -241,6 +241,15 @@ pub struct CmpObs {
     pub eq: Option<Result<bool, String>>,
     pub partial: Option<Result<Option<std::cmp::Ordering>, String>>,
     pub cmp: Option<Result<std::cmp::Ordering, String>>,
+    /// the operators themselves: `[a < b, a <= b, a > b, a >= b]` (PartialOrd) – a hand-written impl can
+    /// override them independently of `partial_cmp`
+    pub ops: Option<Result<[bool; 4], String>>,
+    /// `a != b` (PartialEq::ne can be overridden independently of `eq`)
+    pub ne: Option<Result<bool, String>>,
+    /// `[a.max(b), a.min(b)]` as inner values (provided methods of Ord; need Clone)
+    pub maxmin: Option<Result<[Val; 2], String>>,
+    /// inner value of `a` after `a.clone_from(&b)` (provided method of Clone)
+    pub clone_from: Option<Result<Val, String>>,
 }
 
 pub trait Subject: Send + Sync {
